@@ -30,6 +30,19 @@ CLAIMED = {
                   "library and compared by TLC.",
              note="Trusts TLC and the Bitwise Java overrides; exhaustive only within the stated length bounds.",
              ref="5 C12"),
+ "C03": dict(cat="model_checking", tech="TLC model checking of the patch state machine (ZiPatch.tla) + replay of every bounded chunk sequence + TLC trace validation at byte level",
+             text="ZiPatch.tla is the reference semantics of a chunk stream on a directory tree (one action per chunk kind). TLC explores every "
+                  "chunk sequence of length <= 3 with patch boundaries over a 30-op alphabet and 3 initial trees (frame condition, canonical names, "
+                  "ok-iff-EOF, fold = step-wise). Every one of those sequences, a file-name sweep and random long patches / chains are encoded by an "
+                  "independent encoder, applied by the real library, and the resulting tree is compared by TLC with the specification's Apply.",
+             note="Trusts TLC, gen/zipatch.py (wire format recalled from XIVLauncher), the shim's tree snapshot; directories compared as 'required dirs exist'.",
+             ref="5 C03"),
+ "C04": dict(cat="model_checking", tech="TLC check of Apply(A, Create(A,B)) = NonEmpty(B) on all 65536 tree pairs + trace validation of real create/apply",
+             text="The composition law is checked by TLC on the specification for every pair of trees over 4 paths; the same pairs (quick: 6561) and "
+                  "random pairs with block-boundary sizes are given to the real ZiPatch::create, its output is decoded by an independent structure-driven "
+                  "decoder, and TLC checks purity, the law on the decoded chunks, the real apply result and their agreement.",
+             note="Trusts TLC, gen/zipatch.py's decoder, the shim's tree snapshot.",
+             ref="5 C04"),
 }
 REASON_PENDING = "check not built yet in this session (see DESIGN.md section 5); will be claimed when its trace specification exists"
 
